@@ -370,6 +370,9 @@ Qed.
 
 End WithHB.
 
+Lemma render_app a b : render (a ++ b) = render a ++ render b.
+Proof. unfold render. now rewrite map_app, concat_app. Qed.
+
 Lemma render_join_tokens ls :
   render (join_tokens (map piece_tokens ls)) = join "." (map render_piece ls).
 Proof.
@@ -378,16 +381,15 @@ Proof.
   - simpl. apply render_piece_tokens.
   - change (join_tokens (map piece_tokens (l :: l2 :: r'))) with (piece_tokens l ++ TStatic "." :: join_tokens (map piece_tokens (l2 :: r'))).
     change (join "." (map render_piece (l :: l2 :: r'))) with (render_piece l ++ "." :: join "." (map render_piece (l2 :: r'))).
-    unfold render in *. rewrite map_app, concat_app. simpl. rewrite <- IH.
-    f_equal. apply render_piece_tokens.
+    rewrite render_app. change (render (TStatic "." :: ?x)) with ("." :: render x).
+    rewrite IH, render_piece_tokens. reflexivity.
 Qed.
 
 Lemma render_pat_tokens p : render (pat_tokens p) = render_pat p.
 Proof.
   unfold pat_tokens, render_pat, host_text, path_text.
-  unfold render at 1. rewrite map_app, concat_app. fold (render (join_tokens (map piece_tokens (p_host p)))).
-  rewrite render_join_tokens. f_equal.
+  rewrite render_app, render_join_tokens. f_equal.
   induction (p_path p) as [|s r IH]; [reflexivity|].
-  simpl. rewrite map_app, concat_app. simpl. rewrite IH. f_equal.
-  fold (render (piece_tokens s)). now rewrite render_piece_tokens.
+  simpl map. simpl concat. rewrite render_app, IH.
+  change (render (TStatic "/" :: ?x)) with ("/" :: render x). now rewrite render_piece_tokens.
 Qed.
